@@ -271,6 +271,19 @@ pub fn replay(prop: &str, rp: &Value) -> Vec<Violation> {
                 crate::teardown::judge(p, case.text.first().map(|s| s.as_str()).unwrap_or("tcp"), &mut acc);
                 return acc.violations.into_values().map(|(v, _)| v).collect();
             }
+            if case.op == "allocprobe" {
+                let p: &'static str = ALL.iter().find(|x| **x == prop).copied().unwrap_or("C14");
+                let mut acc = Acc::default();
+                crate::teardown::alloc_probe(p, &mut acc);
+                return acc.violations.into_values().map(|(v, _)| v).collect();
+            }
+            if case.op == "callsites" {
+                let p: &'static str = ALL.iter().find(|x| **x == prop).copied().unwrap_or("C01");
+                let fam: &'static str = crate::teardown::FAMILIES.iter().find(|f| Some(&f.to_string()) == case.text.first()).copied().unwrap_or("parser");
+                let mut acc = Acc::default();
+                crate::teardown::callsite_sweep(p, fam, &mut acc);
+                return acc.violations.into_values().map(|(v, _)| v).collect();
+            }
             let Some(j) = in_judge(prop) else {
                 eprintln!("MACHINERY-FAILURE: {prop} has no input-space judge");
                 std::process::exit(2)
